@@ -109,7 +109,7 @@ impl Model {
             f.join(","),
             s.join(","),
             self.password % 2,
-            self.cipher % 2,
+            self.cipher % 3,
             (self.maint > 0) as u8,
             self.compacted,
             if budgeted {
@@ -415,6 +415,19 @@ fn enabled_full(m: &Model, p: &Profile) -> Vec<Op> {
 
 // ------------------------------------------------------- implementation
 
+/// Target of the n-th change_cipher of a path. The first target is the
+/// configuration new accounts start with (AES-GCM-256 + Argon2id): at that
+/// point only the user folder of the initial state (XChaCha20-Poly1305)
+/// differs, i.e. the account is in a mixed state in which the identity
+/// folder needs no conversion but a user folder does.
+fn cipher_target(n: u8) -> (Cipher, KeyDerivation) {
+    match n % 3 {
+        1 => (Cipher::AesGcm256, KeyDerivation::Argon2Id),
+        2 => (Cipher::XChaCha20Poly1305, KeyDerivation::BalloonHash),
+        _ => (Cipher::AesGcm256, KeyDerivation::BalloonHash),
+    }
+}
+
 fn vid(s: &str) -> VaultId {
     s.parse().unwrap()
 }
@@ -646,21 +659,19 @@ async fn apply(dev: &mut Dev, m: &mut Model, op: &Op) -> Result<()> {
         }
         Op::ChangeCipher => {
             let nc = m.cipher + 1;
-            let cipher = if nc % 2 == 1 {
-                Cipher::XChaCha20Poly1305
-            } else {
-                Cipher::AesGcm256
-            };
-            let kdf = if nc % 2 == 1 {
-                KeyDerivation::BalloonHash
-            } else {
-                KeyDerivation::Argon2Id
-            };
+            let (cipher, kdf) = cipher_target(nc);
             let key: AccessKey = dev.password.clone().into();
-            acc.change_cipher(&key, &cipher, Some(kdf)).await?;
+            // only folders that are not yet on the target are converted
+            let before: HashMap<String, (Cipher, KeyDerivation)> = acc
+                .list_folders()
+                .await?
+                .iter()
+                .map(|s| (s.id().to_string(), (s.cipher().clone(), s.kdf().clone())))
+                .collect();
+            acc.change_cipher(&key, &cipher, Some(kdf.clone())).await?;
             m.cipher = nc;
             for (i, f) in m.folders.iter().enumerate() {
-                if f.alive {
+                if f.alive && before.get(&f.id) != Some(&(cipher.clone(), kdf.clone())) {
                     m.compacted[i] = true;
                 }
             }
@@ -1221,15 +1232,30 @@ async fn check_c12(
     }
     let rekeyed: Vec<usize> = match op {
         Op::ChangeFolderPassword { f } => vec![*f],
-        Op::ChangeCipher => m
-            .folders
-            .iter()
-            .enumerate()
-            .filter(|(_, f)| f.alive)
-            .map(|(i, _)| i)
-            .collect(),
+        // the folders that were not yet on the target configuration
+        Op::ChangeCipher => {
+            let (cipher, kdf) = cipher_target(m.cipher);
+            m.folders
+                .iter()
+                .enumerate()
+                .filter(|(_, f)| f.alive)
+                .filter(|(_, f)| old.get(&f.id).map(|o| o.vault.cipher() != &cipher || o.vault.kdf() != &kdf).unwrap_or(true))
+                .map(|(i, _)| i)
+                .collect()
+        }
         _ => vec![],
     };
+    // after a cipher change EVERY folder is on the target configuration
+    if let Op::ChangeCipher = op {
+        let (cipher, kdf) = cipher_target(m.cipher);
+        for (fi, f) in m.folders.iter().enumerate().filter(|(_, f)| f.alive) {
+            if let Ok(mirror) = mirror_vault(dev, &vid(&f.id)).await {
+                if mirror.cipher() != &cipher || mirror.kdf() != &kdf {
+                    fails.push("C12", format!("{}:folder_not_on_target_cipher:{}", op.kind(), b), format!("after change_cipher({:?}, {:?}) a folder uses {:?} / {:?}", cipher, kdf, mirror.cipher(), mirror.kdf()), json!({"folder": fi}));
+                }
+            }
+        }
+    }
     for fi in rekeyed {
         let id = vid(&m.folders[fi].id);
         let Some(o) = old.get(&m.folders[fi].id) else {
@@ -1248,8 +1274,9 @@ async fn check_c12(
                 }
             }
             if let Op::ChangeCipher = op {
-                if mirror.cipher() == o.vault.cipher() {
-                    fails.push("C12", format!("{}:cipher_unchanged:{}", op.kind(), b), "the folder still uses the old cipher".into(), json!({"folder": fi}));
+                let (cipher, kdf) = cipher_target(m.cipher);
+                if mirror.cipher() != &cipher || mirror.kdf() != &kdf {
+                    fails.push("C12", format!("{}:cipher_unchanged:{}", op.kind(), b), format!("after change_cipher({:?}, {:?}) the folder uses {:?} / {:?}", cipher, kdf, mirror.cipher(), mirror.kdf()), json!({"folder": fi}));
                 }
             }
             if mirror.verify(&new).await.is_err() {
@@ -1298,9 +1325,14 @@ fn raw_scan_old(
 ) {
     let rekeyed: Vec<usize> = match op {
         Op::ChangeFolderPassword { f } => vec![*f],
-        Op::ChangeCipher => (0..m.folders.len())
-            .filter(|i| m.folders[*i].alive)
-            .collect(),
+        Op::ChangeCipher => {
+            // only the folders that were not yet on the target are converted
+            let (cipher, kdf) = cipher_target(m.cipher);
+            (0..m.folders.len())
+                .filter(|i| m.folders[*i].alive)
+                .filter(|i| old.get(&m.folders[*i].id).map(|o| o.vault.cipher() != &cipher || o.vault.kdf() != &kdf).unwrap_or(true))
+                .collect()
+        }
         _ => return,
     };
     let files: Vec<(PathBuf, Vec<u8>)> = fsutil::walk_files(dir)
@@ -1869,8 +1901,8 @@ async fn initial_state(
         .create_folder(NewFolderOptions {
             flags: Some(VaultFlags::NO_SYNC),
             // the default and archive folders use the default cipher
-            // (XChaCha20-Poly1305): this one covers AES-GCM-256
-            cipher: Some(Cipher::AesGcm256),
+            // (AES-GCM-256): this one covers XChaCha20-Poly1305
+            cipher: Some(Cipher::XChaCha20Poly1305),
             ..NewFolderOptions::new("folder-2".to_string())
         })
         .await?;
